@@ -18,3 +18,22 @@ func zzC17_p_IfdStruct() {
 	_ = ifd.IsValid()
 	zzReached("end")
 }
+
+// the eight SubIfd directory types name their tags alike (every tag id; StripOffsets/StripByteCounts are the preview
+// image in every sub-directory but SubIfd2, where they are the JPEG-from-raw image), with the documented names
+func zzC17_SubIfd_names() {
+	k := zzU8("k")
+	zzAssume(k >= uint8(SubIfd0) && k <= uint8(SubIfd7))
+	t := IfdType(zzConc(uint64(k), 8))
+	id := tag.ID(zzU16("id"))
+	if id != 0x0111 && id != 0x0117 {
+		zzAssert(t.TagName(id) == SubIfd0.TagName(id), "SubIfd0..SubIfd7 give a tag the same name")
+	}
+	zzAssert(t.TagName(0x000b) == "ProcessingSoftware", "documented SubIfd tag name (ProcessingSoftware)")
+	if t == SubIfd2 {
+		zzAssert(t.TagName(0x0111) == "JpgFromRawStart" && t.TagName(0x0117) == "JpgFromRawLength", "documented SubIfd2 tag names")
+	} else {
+		zzAssert(t.TagName(0x0111) == "PreviewImageStart" && t.TagName(0x0117) == "PreviewImageLength", "documented SubIfd tag names")
+	}
+	zzReached("end")
+}
